@@ -173,7 +173,7 @@ var shapes = []string{
 	"inplace-file", "inplace-dir", "inplace-bundle", "separate-file", "separate-dir", "sync-dir", "sync-inplace",
 	"alias-symlink", "alias-hardlink", "stdin-file",
 	"to-stdout", "bundle-stdout", "bundle-file", "many-files-dir", "dir-noslash", "filters", "type-override", "ext-map",
-	"stdin-stdout", "rejected", "dir-without-r", "symlink-inputs", "big-dir", "dash-stdout", "many-failures",
+	"stdin-stdout", "rejected", "dir-without-r", "symlink-inputs", "big-dir", "dash-stdout", "many-failures", "sync-files",
 }
 
 const nCrashShapes = 10
@@ -434,6 +434,25 @@ func GenCase(tape *sim.Tape, crashBias bool) *Case {
 		iv.Recursive, iv.Quiet = true, true
 		iv.Inputs, iv.Output = []string{"in/"}, "out/"
 		iv.Verbose = 0
+	case "sync-files":
+		// --sync with explicitly named files: selected ones are minified, the others copied
+		k := 2 + tape.Draw(4)
+		for i := 0; i < k; i++ {
+			exts := minifiableExts
+			if tape.Draw(2) == 0 {
+				exts = otherExts
+			}
+			dir := ""
+			if tape.Draw(3) == 0 {
+				dir = "d" + fmt.Sprint(tape.Draw(2))
+			}
+			iv.Inputs = append(iv.Inputs, one(dir, exts, true))
+		}
+		iv.Sync = true
+		iv.Output = "out/"
+		if tape.Draw(3) == 0 {
+			iv.Match = []string{[]string{"*.css", "*.js", "a*"}[tape.Draw(3)]}
+		}
 	case "dash-stdout":
 		// "-" as output means stdout, "-" as the only input means stdin
 		if tape.Draw(2) == 0 {
